@@ -4,7 +4,7 @@
    allocated scopes that are neither a task group's own scope nor a task handle's scope, AExit on such scopes
    or when it is rejected by its guards anyway, AGroupEnter on allocated groups, AFinish only at the task's
    base scope, ARun (HWake t f) only for f = the task's waiter). *)
-From AV Require Import Base Machine ScopeFrames DeliverInv TreeInv DeliverAlive PotentialInv TreeStep KernelInv DeliverThms.
+From AV Require Import Base Machine ScopeFrames DeliverInv TreeInv DeliverAlive PotentialInv TreeStep KernelInv DeliverThms CycleThms.
 
 (* I4: a cancelled, hosted scope that some live task still reaches (walk from the task's current scope up the
    parent links through scopes that are neither shielded nor cancelled) has its delivery callback scheduled *)
@@ -98,10 +98,9 @@ Theorem C03_exit_restarts_parent : forall s c t exc,
 Proof. exact exit_restarts_parent. Qed.
 Print Assumptions C03_exit_restarts_parent.
 
-(* bounded response under FIFO, the one-cycle pieces (the glue between them is not proved, hence _partial):
-   the delivery callback is in the ready queue; running it cancels the task's wait and schedules its wake-up;
-   running the wake-up raises the cancellation with the scope as origin *)
-Theorem C03_cancel_latency_le_2_cycles_partial : forall s t c f,
+(* one-cycle pieces with the exact origin: the delivery callback is in the ready queue; running it cancels the
+   task's wait and schedules its wake-up; running the wake-up raises the cancellation with the scope as origin *)
+Theorem C03_delivery_then_wake_raises : forall s t c f,
   reach_ok s -> s_cancelled (scopes s c) = true -> s_host (scopes s c) <> None -> reaches s t c ->
   k_must (tasks s t) = false -> k_started (tasks s t) = true ->
   k_waiter (tasks s t) = Some f -> f_st (futs s f) = FPend ->
@@ -114,9 +113,9 @@ Theorem C03_cancel_latency_le_2_cycles_partial : forall s t c f,
   In (HWake t f) (ready s1) /\
   snd (step s1 (ARun (HWake t f))) = RExc (ECancel (S c)).
 Proof. exact cancel_latency_le_2_cycles_partial. Qed.
-Print Assumptions C03_cancel_latency_le_2_cycles_partial.
+Print Assumptions C03_delivery_then_wake_raises.
 
-Theorem C03_ckif_spin_terminates_partial : forall s t c,
+Theorem C03_delivery_then_step_raises : forall s t c,
   reach_ok s -> s_cancelled (scopes s c) = true -> s_host (scopes s c) <> None -> reaches s t c ->
   k_must (tasks s t) = false -> k_started (tasks s t) = true -> k_waiter (tasks s t) = None ->
   In (HStep t) (ready s) ->
@@ -126,4 +125,76 @@ Theorem C03_ckif_spin_terminates_partial : forall s t c,
   In (HStep t) (ready s1) /\
   snd (step s1 (ARun (HStep t))) = RExc (ECancel (S c)).
 Proof. exact ckif_spin_terminates_partial. Qed.
-Print Assumptions C03_ckif_spin_terminates_partial.
+Print Assumptions C03_delivery_then_step_raises.
+
+(* ---- bounded response under the FIFO event loop ----
+   run_head s   = run the head of the ready queue (step s (ARun h)); identity on an empty queue
+   fifo_cycle s = iter (length (ready s)) run_head s   (snapshot the queue length, run that many heads)
+   heads n s    = the n (state, handle) pairs (s_i, h_i) of the next n head runs
+   wait_ctl     = the task is the puppet at its decision point, in a checkpoint, in checkpoint_if_cancelled,
+                  in sleep, or in a handle wait
+   cycle_ok t f n s = each of the next n head runs is either t's own wake-up HWake t f at a moment where f is
+                  no longer pending, or a callback of a covered kind that is not HWake t f:
+                  HDeliver, HTaskDone, HSleepDone, HTimeout of anything, and HStep/HWake of another task whose
+                  frame is simple_ctl (decision point, checkpoint, checkpoint_if_cancelled, sleep, handle wait,
+                  done), all inside the op domain.
+   Excluded thereby: resumptions of other tasks' library frames that run scope exits or group logic (task
+   start CNew, CYield (YShield _), CAexitWait, CAexitCk, CStartWait, CStartJoin), any HStep of t, and a wake-up
+   of t while f is still pending.
+   Statement: t suspended on the pending future f with no request recorded, reaching the cancelled hosted
+   scope c at a cycle boundary.  Then among the head runs of this cycle and the next there is t's wake-up, and
+   it raises a cancellation (origin: c or a nearer scope cancelled in between) unless f was completed with a
+   result or an exception first (the wait finished normally before the delivery). *)
+Theorem C03_cancel_latency_le_2_cycles : forall t f c s,
+  reach_ok s -> running s <> Some t ->
+  s_cancelled (scopes s c) = true -> s_host (scopes s c) <> None -> reaches s t c ->
+  k_must (tasks s t) = false -> k_started (tasks s t) = true ->
+  k_waiter (tasks s t) = Some f -> f_st (futs s f) = FPend -> wait_ctl (k_ctl (tasks s t)) = true ->
+  cycle_ok t f (length (ready s)) s -> cycle_ok t f (length (ready (fifo_cycle s))) (fifo_cycle s) ->
+  exists si,
+    In (si, HWake t f) (heads (length (ready s)) s ++ heads (length (ready (fifo_cycle s))) (fifo_cycle s)) /\
+    ((exists o, snd (step si (ARun (HWake t f))) = RExc (ECancel o)) \/
+     (exists v, f_st (futs si f) = FRes v) \/ (exists e, f_st (futs si f) = FExc e)).
+Proof. exact cancel_latency_le_2_cycles. Qed.
+Print Assumptions C03_cancel_latency_le_2_cycles.
+
+(* the premises are satisfiable (task 1 cancels its own scope while running, then sleeps forever); the two
+   cycles observed are [HDeliver 1] and [HWake 1 5; HDeliver 1] *)
+Theorem C03_cancel_latency_nonvacuous :
+  let s := final step init [ANewRoot; ANewScope 1 None false; AEnter 1 1; ACancel 1 1; ASleep 1 None] in
+  running s <> Some 1 /\ s_cancelled (scopes s 1) = true /\ s_host (scopes s 1) <> None /\ reaches s 1 1 /\
+  k_must (tasks s 1) = false /\ k_started (tasks s 1) = true /\ k_waiter (tasks s 1) = Some 5 /\
+  f_st (futs s 5) = FPend /\ wait_ctl (k_ctl (tasks s 1)) = true /\
+  cycle_ok 1 5 (length (ready s)) s /\ cycle_ok 1 5 (length (ready (fifo_cycle s))) (fifo_cycle s) /\
+  map snd (heads (length (ready s)) s ++ heads (length (ready (fifo_cycle s))) (fifo_cycle s))
+  = [HDeliver 1; HWake 1 5; HDeliver 1].
+Proof. exact lat_premises. Qed.
+Print Assumptions C03_cancel_latency_nonvacuous.
+
+(* checkpoint_if_cancelled spin: t is suspended in the bare yield of the spin (its HStep is scheduled) and
+   reaches the cancelled hosted scope c.  cycle_oky t n s = each of the next n head runs is t's own HStep, or a
+   covered callback as above (with "HStep/HWake of another task" meaning a task other than t).  Then among the
+   head runs of this cycle and the next there is a step of t that raises a cancellation: the spin makes at
+   most one more round. *)
+Theorem C03_ckif_spin_terminates : forall t c s,
+  reach_ok s -> running s <> Some t ->
+  s_cancelled (scopes s c) = true -> s_host (scopes s c) <> None -> reaches s t c ->
+  k_started (tasks s t) = true -> k_waiter (tasks s t) = None ->
+  k_ctl (tasks s t) = CYield YCkIf -> In (HStep t) (ready s) ->
+  cycle_oky t (length (ready s)) s -> cycle_oky t (length (ready (fifo_cycle s))) (fifo_cycle s) ->
+  exists si,
+    In (si, HStep t) (heads (length (ready s)) s ++ heads (length (ready (fifo_cycle s))) (fifo_cycle s)) /\
+    exists o, snd (step si (ARun (HStep t))) = RExc (ECancel o).
+Proof. exact ckif_spin_terminates. Qed.
+Print Assumptions C03_ckif_spin_terminates.
+
+Theorem C03_ckif_spin_nonvacuous :
+  let s := final step init [ANewRoot; ANewScope 1 None false; AEnter 1 1; ACancel 1 1; ACkIf 1] in
+  running s <> Some 1 /\ s_cancelled (scopes s 1) = true /\ s_host (scopes s 1) <> None /\ reaches s 1 1 /\
+  k_started (tasks s 1) = true /\ k_waiter (tasks s 1) = None /\ k_ctl (tasks s 1) = CYield YCkIf /\
+  In (HStep 1) (ready s) /\
+  cycle_oky 1 (length (ready s)) s /\ cycle_oky 1 (length (ready (fifo_cycle s))) (fifo_cycle s) /\
+  map snd (heads (length (ready s)) s ++ heads (length (ready (fifo_cycle s))) (fifo_cycle s))
+  = [HDeliver 1; HStep 1; HDeliver 1].
+Proof. exact spin_premises. Qed.
+Print Assumptions C03_ckif_spin_nonvacuous.
